@@ -444,7 +444,13 @@ func (p *Prop[C]) Check(t *testing.T, quick, thorough int) {
 	e := GetEnv()
 	n := quick
 	if e.Tier == "thorough" {
-		n = (thorough + e.NShards - 1) / e.NShards
+		// VERIF_THOROUGH_SCALE multiplies every thorough case count (default 4: the counts in the
+		// test files are the ones of the design document, the machine has time for more)
+		scale := 4.0
+		if v, err := strconv.ParseFloat(os.Getenv("VERIF_THOROUGH_SCALE"), 64); err == nil && v > 0 {
+			scale = v
+		}
+		n = (int(float64(thorough)*scale) + e.NShards - 1) / e.NShards
 	} else if e.Shard > 0 {
 		t.Skip("quick tier runs in one shard")
 	}
